@@ -193,9 +193,10 @@ class Scenario:
                 seen.add(x)
                 out.append(x)
         commits = self.topo_commits(R, key=lambda c: (-self.objects[c].get("date", 0), -c))
+        rootset = set(roots) | {o["target"] for o in self.objects if o["kind"] == "tag"}       # (one pass: linear in the objects)
         for x in sorted(R):
             k = self.objects[x]["kind"]
-            if k == "tree" and any(True for _ in [0]) and self._is_root_like(x, roots):
+            if k == "tree" and x in rootset:
                 emit_tree(x)
             elif k == "blob" and x in roots and x not in seen:
                 seen.add(x)
